@@ -20,7 +20,7 @@ from lib import env
 from . import phase
 
 TITLE = 'C01: structure of the phase loop in the five sibling implementations, duplicate-edge rejection, support-vector arithmetic shape.'
-RULES = {'R01a': 5, 'R01b': 10, 'R01c': 4, 'R01d': 2, 'R02c': 3}
+RULES = {'R01a': 5, 'R01b': 10, 'R01c': 4, 'R01d': 2, 'R02c': 3, 'R01f': 2}
 
 
 def run_rules(rep, tier, rules, docs, pos_name='c01_phase.cc', extra=None):
@@ -66,6 +66,7 @@ DOCS = {
     'R01b': 'support-vector update after each phase; search driven by support[k]',
     'R01c': 'duplicate-edge rejection is never dropped',
     'R01d': 'MPI: root-only emission',
+    'R01f': 'no candidate is removed from the collection before the lookup',
     'R02a': 'returned value = sum of the weights of the emitted cycles',
     'R02b': 'edge/weight pairing while a cycle is assembled',
     'R02c': 'sequential running-best update contract',
